@@ -126,12 +126,14 @@ func hashtrieRules(r *core.Run, id string) {
 	okStep := false
 	core.EachInstr(wf, func(_ *ssa.BasicBlock, _ int, in ssa.Instruction) {
 		phi, ok := in.(*ssa.Phi)
-		if !ok || !isIntegerType(phi.Type()) || phi.Comment != "i" {
+		if !ok || !isIntegerType(phi.Type()) {
 			return
 		}
-		idx = phi
+		// the entry cursor: the loop phi advanced by refSize+8 (identified by its stride, not
+		// by its name)
 		for _, e := range phi.Edges {
 			if add, ok := e.(*ssa.BinOp); ok && add.Op == token.ADD && add.X == ssa.Value(phi) && plusConst(add.Y, isRefSize, 8) {
+				idx = phi
 				okStep = true
 			}
 		}
